@@ -391,6 +391,32 @@ void ds_point(void)
 {
     vsp(NULL, VK_ARMW);
 }
+uint64_t ds_epoch(void)
+{
+    return g_epoch;
+}
+/* Sleep until something is written after the moment ds_epoch() returned e.
+ * (Check-then-sleep of a harness condition must not lose a write that lands
+ * between the check and the sleep.) */
+void ds_wait_since(uint64_t e)
+{
+    if (!ds_active()) {
+        __real_sched_yield();
+        return;
+    }
+    int me = self_id;
+    ds_steps++;
+    if (ds_steps > g_cfg.step_limit)
+        hang("steplimit");
+    if (T[me].pending_write) {
+        T[me].pending_write = 0;
+        g_epoch++;
+    }
+    T[me].state = ST_SPIN;
+    T[me].sleep_epoch = e;
+    T[me].has_deadline = 0;
+    yield_blocked();
+}
 void ds_wait_change(void)
 {
     if (!ds_active()) {
